@@ -582,7 +582,7 @@ pub fn run_c05(run: &Run) {
     let mut builtin_sources = standard_sources(run, false);
     if quick {
         // the residue class of A(3) is left to the thorough tier (which runs all of A(3))
-        builtin_sources.retain(|s| !s.name().starts_with("A(3) class") && !s.name().starts_with("F(4,2) class") && !matches!(s, Source::Tern(5, ..)) && !matches!(s, Source::Ring(..) | Source::Sparse(..)));
+        builtin_sources.retain(|s| !s.name().starts_with("A(3) class") && !s.name().starts_with("F(4,2) class") && !matches!(s, Source::Tern(5, ..)) && !matches!(s, Source::Ring(..) | Source::Sparse(..) | Source::Ladder));
         builtin_sources.push(Source::Ring(6, run.seed % 64, 64));
         builtin_sources.push(Source::Ring(7, run.seed % 2048, 2048));
         builtin_sources.push(Source::Ring(8, run.seed % 32768, 32768));
